@@ -12,6 +12,9 @@ CONFIGS = {
                                                     'max_out': 2, 'probe': True}, 8),
     ('aperture 3 endpoints dup/unknown notifications', {'kind': 'aperture', 'n': 2, 'extra': 1, 'min_size': 1, 'ops': NOTIF + ['Adv'],
                                                         'advs': [3], 'dup_ops': True, 'max_out': 2}, 8),
+    ('aperture 3 endpoints, members down/up, contraction and expansion over time',
+     {'kind': 'aperture', 'n': 3, 'min_size': 1, 'ops': ['D', 'C', 'Down', 'Up', 'Adv', 'Leave', 'Join'], 'advs': [1, 3], 'max_out': 3,
+      'max_down': 1, 'max_notifications': 1}, 7),
     ('heap notifications during loading', {'kind': 'heap', 'n': 2, 'extra': 1, 'ops': ['Join', 'Leave', 'Gate', 'D', 'C'],
                                            'gate': True, 'notifier': True, 'dup_ops': True, 'max_notifications': 4,
                                            'max_out': 2, 'probe': True}, 8),
